@@ -95,3 +95,17 @@ func ZZ_C10_odd(a []int) {
 		zzWriteCheck(p, a[1])
 	}
 }
+
+// ZZ_C10_rewrite: a[0] = setter, a[1:] = shape. The packet is written and
+// rendered, then modified by one setter / adder, then written again: both
+// times exactly one frame whose size WriteTo and String() report truthfully.
+func ZZ_C10_rewrite(a []int) {
+	abs := zzGen(zzShapeOf(a[1:]))
+	p := zzBuild(abs)
+	zzWriteCheck(p, 0)
+	if !zzApplySetter(p, abs, a[0], 1, "x.") {
+		return
+	}
+	zzReach("rewrite")
+	zzWriteCheck(p, 0)
+}
